@@ -29,6 +29,8 @@ thread_local! {
     static PANIC_CATCHER_ENABLED: Cell<bool> = const { Cell::new(false) };
 }
 static PANIC_CATCHER_HOOK_SET: AtomicBool = AtomicBool::new(false);
+// Serializes installations of the hook (see `panic_catcher_set_hook`).
+static PANIC_CATCHER_HOOK_LOCK: std::sync::Mutex<()> = std::sync::Mutex::new(());
 
 #[inline]
 fn panic_catcher_start_catching() -> bool {
@@ -126,6 +128,12 @@ fn record_backtrace(info: &std::panic::PanicHookInfo<'_>, bt: &mut String) {
 
 /// Registers panic catcher panic hook.
 pub fn panic_catcher_set_hook() {
+    // Concurrent first calls must not interleave: a second caller that had already
+    // seen the flag unset would otherwise take the hook installed by the first one,
+    // leaving no catcher hook in place until it sets its own.
+    let _guard = PANIC_CATCHER_HOOK_LOCK
+        .lock()
+        .unwrap_or_else(|poisoned| poisoned.into_inner());
     if PANIC_CATCHER_HOOK_SET.load(Ordering::SeqCst) {
         return;
     }
